@@ -561,3 +561,137 @@ Theorem C04_prnt_cycle_dropped :
             BinSpecReadExamples.f_cyc) = Ok [].
 Proof. exact BinSpecReadExamples.prnt_cycle_dropped. Qed.
 
+(* ---- round 4 (Proofs/BinSpecReadMig.v): MIGRATING property chunks and the whole table of keys.  The lift to whole files is re-proved without
+   the `prop_nonmig` hypothesis (pstepM mirrors add_property).  fold_key_trace: the value under a key depends only on the chunks targeting it, in
+   chunk order (a migration fires only when nothing is stored yet); mig_prop_in_fold: a legacy chunk alone stores the migrated value under the new
+   name, nothing when the migration fails; explicit_wins_in_fold: a plain chunk of the new property wins over the legacy chunk in EITHER chunk order;
+   every_key_distinct: the closed form of the whole table; mig_property_whole_file: all of it for decode_file on the document encoder's files.
+   The legacy name is a key only if some chunk targets it: necessary for arbitrary databases (a chain of migrations; witness pinned). *)
+From RbxVerif Require Import BinSpecReadMig.
+Theorem C04_fold_key_trace :
+  forall (d : db) (p : dec_params) (cl : bs_class) (k : nat) (sstr : list (bytes * bytes)) 
+         (lo : Z -> N) (props : list bs_prop) (key : bytes),
+       bfind key (collect_props (snd (fold_left (pstepM d p sstr lo cl k) props (cls_name cl, [])))) =
+       lastv (fold_left (tstep d p cl k sstr lo key) (filter (tgt d cl key) props) []).
+Proof. exact fold_key_trace. Qed.
+
+Theorem C04_mig_prop_in_fold :
+  forall (d : db) (p : dec_params) (cl : bs_class) (k : nat) (sstr : list (bytes * bytes)) 
+         (lo : Z -> N) (props : list bs_prop) (pr : bs_prop) (col : bs_column) (ty : wire_type) 
+         (nm : bytes) (cty : N) (nn : bytes) (op : migop) (vals : list value) (v : value),
+       only_propM d cl props nn pr ->
+       bp_body pr = BValues col ->
+       wire_of_id (bs_col_type col) = Some ty ->
+       find_canonical_property d ty (cls_name cl) (bp_name pr) = Ok (Some (nm, cty, Some (nn, op))) ->
+       bs_col_values sstr lo col = Ok vals ->
+       nth_error vals k = Some v ->
+       let tbl := collect_props (snd (fold_left (pstepM d p sstr lo cl k) props (cls_name cl, []))) in
+       bfind nn tbl = migrate (dp_font p) (dp_brick p) op (retype cty v) /\
+       (filter (tgt d cl (bp_name pr)) props = [] -> bfind (bp_name pr) tbl = None).
+Proof. exact mig_prop_in_fold. Qed.
+
+Theorem C04_explicit_wins_in_fold :
+  forall (d : db) (p : dec_params) (cl : bs_class) (k : nat) (sstr : list (bytes * bytes)) 
+         (lo : Z -> N) (props : list bs_prop) (pe : bs_prop) (cole : bs_column) (tye : wire_type) 
+         (ctye : N) (valse : list value) (ve : value) (pm : bs_prop) (colm : bs_column) 
+         (tym : wire_type) (nmm : bytes) (ctym : N) (op : migop) (valsm : list value) 
+         (vm : value) (nn : bytes),
+       filter (tgt d cl nn) props = [pe; pm] \/ filter (tgt d cl nn) props = [pm; pe] ->
+       bp_body pe = BValues cole ->
+       wire_of_id (bs_col_type cole) = Some tye ->
+       find_canonical_property d tye (cls_name cl) (bp_name pe) = Ok (Some (nn, ctye, None)) ->
+       bs_col_values sstr lo cole = Ok valse ->
+       nth_error valse k = Some ve ->
+       bp_body pm = BValues colm ->
+       wire_of_id (bs_col_type colm) = Some tym ->
+       find_canonical_property d tym (cls_name cl) (bp_name pm) = Ok (Some (nmm, ctym, Some (nn, op))) ->
+       bs_col_values sstr lo colm = Ok valsm ->
+       nth_error valsm k = Some vm ->
+       bfind nn (collect_props (snd (fold_left (pstepM d p sstr lo cl k) props (cls_name cl, [])))) =
+       Some (retype ctye ve).
+Proof. exact explicit_wins_in_fold. Qed.
+
+Theorem C04_every_key_distinct :
+  forall (d : db) (p : dec_params) (cl : bs_class) (k : nat) (sstr : list (bytes * bytes)) 
+         (lo : Z -> N) (props : list bs_prop),
+       (forall key : bytes, (Datatypes.length (filter (tgt d cl key) props) <= 1)%nat) ->
+       forall key : bytes,
+       bfind key (collect_props (snd (fold_left (pstepM d p sstr lo cl k) props (cls_name cl, [])))) =
+       key_value d p cl k sstr lo props key.
+Proof. exact every_key_distinct. Qed.
+
+Theorem C04_mig_property_whole_file :
+  forall (d : db) (p : dec_params) (u : bool) (order : list bs_okey) (cmps : list compression)
+         (f : bs_file) (P1 P2 : list bs_item),
+       dp_lim p = None ->
+       file_dom_ok f = true ->
+       gframes_rt p cmps (List.map (bs_enc_item rdA u) (bs_items_of order f)) ->
+       flat_map (item_of_key f) order = P1 ++ P2 ->
+       forallb (fun it : bs_item => negb (is_prop it)) P1 = true ->
+       forallb (fun it : bs_item => negb (is_reg it)) P2 = true ->
+       Permutation.Permutation (bs_insts P1) (bf_classes f) ->
+       bs_prnts (P1 ++ P2) = [bf_prnt f] ->
+       scan d [] 0 (P1 ++ P2) = true ->
+       inst_prnt_ok false (P1 ++ P2) = true ->
+       scan d (bs_insts P1) (sstr_total P1) P2 = true ->
+       exists (st : dstate) (out : cdom) (nodes : list bs_node),
+         decode_file d p
+           (bs_enc_header (bs_header_of f) ++
+            gframe_all cmps (List.map (bs_enc_item rdA u) (bs_items_of order f))) = 
+         Ok out /\
+         bspec_to_dom f = Ok nodes /\
+         same_dom (phi_of (f_kids f) (D_of st)) (node_mig d f p st (bs_props P2)) nodes out.
+Proof. exact mig_property_whole_file. Qed.
+
+Theorem C04_BinSpecReadMigExamples_legacy_name_is_a_key_refuted :
+  only_propM BinSpecReadMigExamples.db_chain BinSpecReadMigExamples.clP
+         [BinSpecReadMigExamples.prOlder; BinSpecReadMigExamples.prOld] (BinSpecReadExamples.S "New")
+         BinSpecReadMigExamples.prOld /\
+       find_canonical_property BinSpecReadMigExamples.db_chain WBool (BinSpecReadExamples.S "Part")
+         (BinSpecReadExamples.S "Old") =
+       Ok (Some (BinSpecReadExamples.S "Old", VT_Bool, Some (BinSpecReadExamples.S "New", MigInset))) /\
+       filter (tgt BinSpecReadMigExamples.db_chain BinSpecReadMigExamples.clP (BinSpecReadExamples.S "Old"))
+         [BinSpecReadMigExamples.prOlder; BinSpecReadMigExamples.prOld] = [BinSpecReadMigExamples.prOlder] /\
+       bfind (BinSpecReadExamples.S "Old")
+         (collect_props
+            (snd
+               (fold_left
+                  (pstepM BinSpecReadMigExamples.db_chain BinSpecReadMigExamples.mp [] 
+                     (fun _ : Z => 0) BinSpecReadMigExamples.clP 0)
+                  [BinSpecReadMigExamples.prOlder; BinSpecReadMigExamples.prOld]
+                  (cls_name BinSpecReadMigExamples.clP, [])))) = Some (VEnum 1) /\
+       BinSpecReadMigExamples.props_of
+         (decode_file BinSpecReadMigExamples.db_chain BinSpecReadMigExamples.mp
+            (bspec_encode rdA
+               {| ch_order := BinSpecReadMigExamples.o_lc; ch_comp := []; ch_rot_ids := true |}
+               BinSpecReadMigExamples.f_chain)) =
+       Some
+         [[(BinSpecReadExamples.S "New", VEnum 2); (BinSpecReadExamples.S "Old", VEnum 1)];
+          [(BinSpecReadExamples.S "New", VEnum 2); (BinSpecReadExamples.S "Old", VEnum 1)]].
+Proof. exact BinSpecReadMigExamples.legacy_name_is_a_key_refuted. Qed.
+
+Theorem C04_BinSpecReadMigExamples_mig_computed :
+  BinSpecReadMigExamples.props_of
+         (decode_file BinSpecReadMigExamples.mdb BinSpecReadMigExamples.mp
+            (bspec_encode rdA
+               {| ch_order := BinSpecReadMigExamples.o_leg; ch_comp := []; ch_rot_ids := true |}
+               BinSpecReadMigExamples.f_leg)) =
+       Some [[(BinSpecReadExamples.S "Color", VColor3uint8 163 162 165)]; []] /\
+       BinSpecReadMigExamples.props_of
+         (decode_file BinSpecReadMigExamples.mdb BinSpecReadMigExamples.mp
+            (bspec_encode rdA
+               {| ch_order := BinSpecReadMigExamples.o_lc; ch_comp := []; ch_rot_ids := true |}
+               BinSpecReadMigExamples.f_two)) =
+       Some
+         [[(BinSpecReadExamples.S "Color", VColor3uint8 10 20 30)];
+          [(BinSpecReadExamples.S "Color", VColor3uint8 40 50 60)]] /\
+       BinSpecReadMigExamples.props_of
+         (decode_file BinSpecReadMigExamples.mdb BinSpecReadMigExamples.mp
+            (bspec_encode rdA
+               {| ch_order := BinSpecReadMigExamples.o_cl; ch_comp := []; ch_rot_ids := true |}
+               BinSpecReadMigExamples.f_two)) =
+       Some
+         [[(BinSpecReadExamples.S "Color", VColor3uint8 10 20 30)];
+          [(BinSpecReadExamples.S "Color", VColor3uint8 40 50 60)]].
+Proof. exact BinSpecReadMigExamples.mig_computed. Qed.
+
